@@ -353,6 +353,13 @@ class Run(RunBase):
                 raise Violation(f"C09/wrong-exception/{_tag(op)}", f"list add raised {type(exc).__name__}: {exc}")
         elif exc is not None:
             raise Violation(f"C09/add-failed/{_tag(op)}", f"list add with free ids raised {type(exc).__name__}: {exc}")
+        if collided is not None and accepted:
+            # a refused batch may have applied the elements before the refused one (sequential adds) or nothing at
+            # all (an all-or-nothing implementation): both leave every accepted object intact and the pool exact
+            if [list(t) for t in sut_abstract(self.sc)] == \
+                    [list(t) for t in sorted(self.m.abstract(), key=lambda t: (t[0], t[1], t[2] or 0))]:
+                self.probe("refused-batch-applied-nothing")
+                return "rejected"
         for o in accepted:
             self._model_add(o["kind"], o["spec"])
         self._check_state(op, "state-after-list-add")
